@@ -1,7 +1,7 @@
 ---------------------------- MODULE MC_Grading ----------------------------
 EXTENDS Grading
 AllScripts == {"plain", "override", "override_twice", "suppress", "crashing", "formatter", "mocks", "sections",
-               "pools", "partial", "groups", "tifa_types", "classhook", "raiser_a", "raiser_b", "qpool", "plain_notifa", "cover", "vplmax@vpl", "vplplain@vpl", "greeter"}
+               "pools", "partial", "groups", "tifa_types", "classhook", "raiser_a", "raiser_b", "qpool", "plain_notifa", "cover", "vplmax@vpl", "vplplain@vpl", "greeter", "gsmax@gs", "gsplain@gs"}
 QuickScripts == {"plain", "override_twice", "suppress", "crashing", "sections", "pools", "mocks"}
 \* what each script of bind/grading.py dirties
 W == [s \in AllScripts |->
@@ -16,6 +16,8 @@ W == [s \in AllScripts |->
           [] s = "pools" -> {"feedback", "tooldata", "pools"}
           [] s = "vplmax@vpl" -> {"feedback", "tooldata", "formatter", "vpl_maximum"}   \* set_maximum_score(100)
           [] s = "vplplain@vpl" -> {"feedback", "tooldata", "formatter"}
+          [] s = "gsmax@gs" -> {"feedback", "tooldata", "formatter", "gradescope_maximum"}   \* the GradeScope environment's set_maximum_score(50)
+          [] s = "gsplain@gs" -> {"feedback", "tooldata", "formatter"}
           [] s = "cover" -> {"feedback", "tooldata", "tracer", "coverage_data"}   \* what the coverage tracer measured
           [] s = "qpool" -> {"feedback", "tooldata", "question_pools"}      \* the running count of question pools
           [] s = "partial" -> {"feedback", "tooldata", "hiddens"}
@@ -49,12 +51,13 @@ CodeClearResets == {"feedback", "suppressions", "hiddens", "hooks", "tooldata", 
                     "type_tables", "question_pools",
                     "fresh_modules",
                     "coverage_data",
-                    "vpl_maximum",
+                    "vpl_maximum", "gradescope_maximum",
                     "student_modules"}    \* a student file is only ever a module inside the execution that imported it        \* setting up the VPL environment starts from the default maximum again     \* every execution ends by putting the module table back: what student code imported first is unloaded     \* every type VALUE copies its class' method table (Type.__init__), so nothing outlives the analysis
 PinnedClearResets == CodeClearResets \ {"pools", "question_pools"}
 SharedTables == CodeClearResets \ {"type_tables"}
 ModulesStay == CodeClearResets \ {"fresh_modules"}
 StudentModulesStay == CodeClearResets \ {"student_modules"}
 VplMaximumStays == CodeClearResets \ {"vpl_maximum"}
+GsMaximumStays == CodeClearResets \ {"gradescope_maximum"}
 CoverageAccumulates == CodeClearResets \ {"coverage_data"}        \* one measurement object for the whole process
 =============================================================================
